@@ -311,11 +311,11 @@ class OverlappingCategorizer(Categorizer):
 
     def keys_for(self, matcher, docid):
         if self._use_vectors:
-            try:
-                v = self._segment_searcher.vector(docid, self._fieldname)
-                return list(v.all_ids())
-            except KeyError:
-                return []
+            reader = self._segment_searcher.reader()
+            if not reader.has_vector(docid, self._fieldname):
+                return [None]
+            v = reader.vector(docid, self._fieldname)
+            return list(v.all_ids())
         elif self._use_column:
             return self._creader[docid]
         else:
@@ -739,6 +739,8 @@ class StoredFieldFacet(FacetType):
         def keys_for(self, matcher, docid):
             d = self.segment_searcher.stored_fields(docid)
             value = d.get(self.fieldname)
+            if value is None:
+                return [None]
             if self.split_fn:
                 return self.split_fn(value)
             else:
